@@ -6,7 +6,11 @@ pub enum BlobType { Tree, Data }
 pub struct BlobLocation { pub offset: u32, pub length: u32 }
 pub struct IndexBlob { pub id: BlobId, pub tpe: BlobType, pub location: BlobLocation }
 pub struct IndexPack { pub blobs: Vec<IndexBlob> }
-pub trait DecryptWriteBackend: Clone {}
+pub trait DecryptWriteBackend: Clone {
+    // be.save_file(&index_file): serialise, encrypt, store under its hash
+    fn save_file(&self, f: &IndexFile) -> (r: RusticResult<IndexId>)
+        ensures r is Ok ==> INDEX_SAVED(f.packs@, f.packs_to_delete@);
+}
 
 // std BTreeSet<(BlobType, BlobId)> as a mathematical set (ASSUMED contract of insert / contains)
 pub struct BTreeSet<T> { pub s: Ghost<Set<T>> }
@@ -23,15 +27,14 @@ impl<T> BTreeSet<T> {
     pub fn remove(&mut self, x: &T) -> (r: bool) ensures final(self).s@ == old(self).s@.remove(*x), { unimplemented!() }
 }
 
-pub struct IndexFile { pub _opaque: u64 }
+pub struct IndexId { pub _opaque: u64 }
 impl IndexFile {
+    // #[derive(Default)] (dropped by extraction): the empty index file
     #[verifier::external_body]
-    pub fn add(&mut self, p: IndexPack, delete: bool) { unimplemented!() }
+    pub fn default() -> (r: IndexFile) ensures r.packs@.len() == 0 && r.packs_to_delete@.len() == 0, { unimplemented!() }
 }
-impl IndexFile {
-    #[verifier::external_body]
-    pub fn default() -> (r: IndexFile) { unimplemented!() }
-}
+// "this index file content was written to the repository": a fact only save_file can produce
+pub uninterp spec fn INDEX_SAVED(packs: Seq<IndexPack>, marked: Seq<IndexPack>) -> bool;
 pub struct SystemTime { pub _opaque: u64 }
 impl SystemTime {
     #[verifier::external_body]
@@ -69,3 +72,11 @@ impl VRawShared {
 }
 pub struct Packer<BE: DecryptWriteBackend> { pub raw_packer: VRawShared, pub indexer: SharedIndexer<BE>, pub blob_type: BlobType }
 pub open spec fn known_set<BE: DecryptWriteBackend>(ix: Indexer<BE>) -> Option<Set<(BlobType, BlobId)>> { match ix.indexed { Some(s) => Some(s.s@), None => None } }
+
+// after a successful add: the pack sits in the open index file in the right section, or the file was written with it and a new one started
+pub open spec fn listed_or_saved<BE: DecryptWriteBackend>(o: Indexer<BE>, n: Indexer<BE>, pack: IndexPack, delete: bool) -> bool {
+    let packs = if delete { o.file.packs@ } else { o.file.packs@.push(pack) };
+    let marked = if delete { o.file.packs_to_delete@.push(pack) } else { o.file.packs_to_delete@ };
+    ||| (n.file.packs@ == packs && n.file.packs_to_delete@ == marked)
+    ||| (INDEX_SAVED(packs, marked) && n.file.packs@.len() == 0 && n.file.packs_to_delete@.len() == 0)
+}
